@@ -23,6 +23,12 @@ Definition parse_lt (ts : list tok) : option (alt * list tok) :=
 Definition starts_lt (ts : list tok) : bool :=
   match ts with LTV _ _ :: _ | KW Kstatic :: _ | KW Kerased :: _ => true | _ => false end.
 
+Definition punct_eqb (a b : punct) : bool := Nat.eqb (punct_code a) (punct_code b).
+Definition peek (p : punct) (ts : list tok) : bool :=
+  match ts with P q :: _ => punct_eqb p q | _ => false end.
+Definition peek_kw (k : kw) (ts : list tok) : bool :=
+  match ts with KW q :: _ => Nat.eqb (kw_code k) (kw_code q) | _ => false end.
+
 Fixpoint parse_ty (fuel : nat) (ts : list tok) {struct fuel} : option (aty * list tok) :=
   match fuel with
   | O => None
@@ -31,22 +37,21 @@ Fixpoint parse_ty (fuel : nat) (ts : list tok) {struct fuel} : option (aty * lis
       | VAR d i :: r => Some (TVar (AV d i), r)
       | SELF :: r => Some (TVar ASelf, r)
       | KW (Kscalar s) :: r => Some (TScalar s, r)
-      | ID n :: P PLt :: r => '(args, r') <- parse_gargs f r ;; Some (TAdt n args, r')
-      | ID n :: r => Some (TAdt n [], r)
-      | P PLParen :: P PRParen :: r => Some (TTuple [], r)
+      | ID n :: r =>
+          if peek PLt r then '(args, r') <- parse_gargs f (tl r) ;; Some (TAdt n args, r')
+          else Some (TAdt n [], r)
       | P PLParen :: r =>
-          '(t, r1) <- parse_ty f r ;;
-          match r1 with
-          | P PComma :: P PRParen :: r2 => Some (TTuple [t], r2)
-          | P PComma :: r2 => '(ts', r3) <- parse_tys f r2 ;; Some (TTuple (t :: ts'), r3)
-          | _ => None
-          end
+          if peek PRParen r then Some (TTuple [], tl r)
+          else
+            '(t, r1) <- parse_ty f r ;;
+            if peek PComma r1 then
+              if peek PRParen (tl r1) then Some (TTuple [t], tl (tl r1))
+              else '(ts', r3) <- parse_tys f (tl r1) ;; Some (TTuple (t :: ts'), r3)
+            else None
       | P PAmp :: r =>
           '(l, r1) <- parse_lt r ;;
-          match r1 with
-          | KW Kmut :: r2 => '(t, r3) <- parse_ty f r2 ;; Some (TRef true l t, r3)
-          | _ => '(t, r3) <- parse_ty f r1 ;; Some (TRef false l t, r3)
-          end
+          if peek_kw Kmut r1 then '(t, r3) <- parse_ty f (tl r1) ;; Some (TRef true l t, r3)
+          else '(t, r3) <- parse_ty f r1 ;; Some (TRef false l t, r3)
       | _ => None
       end
   end
@@ -57,11 +62,9 @@ with parse_gargs (fuel : nat) (ts : list tok) {struct fuel} : option (list agarg
   | S f =>
       '(a, r) <- (if starts_lt ts then '(l, r) <- parse_lt ts ;; Some (GLt l, r)
                   else '(t, r) <- parse_ty f ts ;; Some (GTy t, r)) ;;
-      match r with
-      | P PComma :: r' => '(l, r'') <- parse_gargs f r' ;; Some (a :: l, r'')
-      | P PGt :: r' => Some ([a], r')
-      | _ => None
-      end
+      if peek PComma r then '(l, r'') <- parse_gargs f (tl r) ;; Some (a :: l, r'')
+      else if peek PGt r then Some ([a], tl r)
+      else None
   end
 (** [t (, t)* )] *)
 with parse_tys (fuel : nat) (ts : list tok) {struct fuel} : option (list aty * list tok) :=
@@ -69,18 +72,13 @@ with parse_tys (fuel : nat) (ts : list tok) {struct fuel} : option (list aty * l
   | O => None
   | S f =>
       '(t, r) <- parse_ty f ts ;;
-      match r with
-      | P PComma :: r' => '(l, r'') <- parse_tys f r' ;; Some (t :: l, r'')
-      | P PRParen :: r' => Some ([t], r')
-      | _ => None
-      end
+      if peek PComma r then '(l, r'') <- parse_tys f (tl r) ;; Some (t :: l, r'')
+      else if peek PRParen r then Some ([t], tl r)
+      else None
   end.
 
 Definition parse_args (fuel : nat) (ts : list tok) : option (list agarg * list tok) :=
-  match ts with
-  | P PLt :: r => parse_gargs fuel r
-  | _ => Some ([], ts)
-  end.
+  if peek PLt ts then parse_gargs fuel (tl ts) else Some ([], ts).
 
 (** binder names [_D_i, '_D_(i+1), ... >]: they must be exactly the ones the writer invents *)
 Fixpoint parse_binder_names (fuel D i : nat) (ts : list tok) : option (list kind * list tok) :=
@@ -92,45 +90,36 @@ Fixpoint parse_binder_names (fuel D i : nat) (ts : list tok) : option (list kind
                  | LTV d j :: r => if (Nat.eqb d D && Nat.eqb j i)%bool then Some (KLt, r) else None
                  | _ => None
                  end ;;
-      match r with
-      | P PComma :: r' => '(l, r'') <- parse_binder_names f D (S i) r' ;; Some (k :: l, r'')
-      | P PGt :: r' => Some ([k], r')
-      | _ => None
-      end
+      if peek PComma r then '(l, r'') <- parse_binder_names f D (S i) (tl r) ;; Some (k :: l, r'')
+      else if peek PGt r then Some ([k], tl r)
+      else None
   end.
 
 Definition parse_params (fuel D i : nat) (ts : list tok) : option (list kind * list tok) :=
-  match ts with
-  | P PLt :: r => parse_binder_names fuel D i r
-  | _ => Some ([], ts)
-  end.
+  if peek PLt ts then parse_binder_names fuel D i (tl ts) else Some ([], ts).
 
 Definition parse_wc (fuel : nat) (ts : list tok) : option (awc * list tok) :=
   if starts_lt ts then
     '(a, r) <- parse_lt ts ;;
-    match r with
-    | P PColon :: r1 => '(b, r2) <- parse_lt r1 ;; Some (WLtOut a b, r2)
-    | _ => None
-    end
+    if peek PColon r then '(b, r2) <- parse_lt (tl r) ;; Some (WLtOut a b, r2) else None
   else
     '(t, r) <- parse_ty fuel ts ;;
-    match r with
-    | P PColon :: r1 =>
-        if starts_lt r1 then '(l, r2) <- parse_lt r1 ;; Some (WTyOut t l, r2)
-        else match r1 with
-             | ID tr :: r2 => '(args, r3) <- parse_args fuel r2 ;; Some (WImpl t tr args, r3)
-             | _ => None
-             end
-    | _ => None
-    end.
+    if peek PColon r then
+      let r1 := tl r in
+      if starts_lt r1 then '(l, r2) <- parse_lt r1 ;; Some (WTyOut t l, r2)
+      else match r1 with
+           | ID tr :: r2 => '(args, r3) <- parse_args fuel r2 ;; Some (WImpl t tr args, r3)
+           | _ => None
+           end
+    else None.
 
 Definition parse_qwc (fuel D : nat) (ts : list tok) : option (aqwc * list tok) :=
-  match ts with
-  | KW Kforall :: P PLt :: r =>
-      '(ks, r1) <- parse_binder_names fuel D 0 r ;;
+  if peek_kw Kforall ts then
+    if peek PLt (tl ts) then
+      '(ks, r1) <- parse_binder_names fuel D 0 (tl (tl ts)) ;;
       '(w, r2) <- parse_wc fuel r1 ;; Some ((ks, w), r2)
-  | _ => '(w, r2) <- parse_wc fuel ts ;; Some (([], w), r2)
-  end.
+    else None
+  else '(w, r2) <- parse_wc fuel ts ;; Some (([], w), r2).
 
 (** [q (, q)*], ends at the first token that is not a comma *)
 Fixpoint parse_qwcs (n fuel D : nat) (ts : list tok) : option (list aqwc * list tok) :=
@@ -138,17 +127,12 @@ Fixpoint parse_qwcs (n fuel D : nat) (ts : list tok) : option (list aqwc * list 
   | O => None
   | S n' =>
       '(q, r) <- parse_qwc fuel D ts ;;
-      match r with
-      | P PComma :: r' => '(l, r'') <- parse_qwcs n' fuel D r' ;; Some (q :: l, r'')
-      | _ => Some ([q], r)
-      end
+      if peek PComma r then '(l, r'') <- parse_qwcs n' fuel D (tl r) ;; Some (q :: l, r'')
+      else Some ([q], r)
   end.
 
 Definition parse_where (fuel D : nat) (ts : list tok) : option (list aqwc * list tok) :=
-  match ts with
-  | KW Kwhere :: r => parse_qwcs fuel fuel D r
-  | _ => Some ([], ts)
-  end.
+  if peek_kw Kwhere ts then parse_qwcs fuel fuel D (tl ts) else Some ([], ts).
 
 Fixpoint parse_attrs (ts : list tok) : list kw * list tok :=
   match ts with
@@ -179,67 +163,70 @@ Fixpoint parse_fields (n fuel i : nat) (ts : list tok) : option (list aty * list
   | O => None
   | S n' =>
       match ts with
-      | FIELD j :: P PColon :: r =>
-          if Nat.eqb j i then
-            '(t, r1) <- parse_ty fuel r ;;
-            match r1 with
-            | P PComma :: r2 => '(l, r3) <- parse_fields n' fuel (S i) r2 ;; Some (t :: l, r3)
-            | P PRBrace :: r2 => Some ([t], r2)
-            | _ => None
-            end
+      | FIELD j :: r =>
+          if (Nat.eqb j i && peek PColon r)%bool then
+            '(t, r1) <- parse_ty fuel (tl r) ;;
+            if peek PComma r1 then '(l, r3) <- parse_fields n' fuel (S i) (tl r1) ;; Some (t :: l, r3)
+            else if peek PRBrace r1 then Some ([t], tl r1)
+            else None
           else None
       | _ => None
       end
   end.
 
+Definition expect_braces (ts : list tok) : option (list tok) :=
+  if (peek PLBrace ts && peek PRBrace (tl ts))%bool then Some (tl (tl ts)) else None.
+
+Definition sflags_of (at_ : list kw) : sflags :=
+  {| sf_upstream := has_kw Kupstream at_; sf_fundamental := has_kw Kfundamental at_;
+     sf_phantom_data := has_kw Kphantom_data at_ |}.
+Definition tflags_of (at_ : list kw) : tflags :=
+  {| tf_auto := has_kw Kauto at_; tf_marker := has_kw Kmarker at_; tf_upstream := has_kw Kupstream at_;
+     tf_fundamental := has_kw Kfundamental at_; tf_non_enumerable := has_kw Knon_enumerable at_;
+     tf_coinductive := has_kw Kcoinductive at_; tf_object_safe := has_kw Kobject_safe at_ |}.
+
+Definition parse_struct (fuel : nat) (at_ : list kw) (name : N) (r : list tok) : option (aitem * list tok) :=
+  let fl := sflags_of at_ in
+  if kws_eqb (sflags_kws fl) at_ then
+    '(ps, r1) <- parse_params fuel 1 0 r ;;
+    '(wcs, r2) <- parse_where fuel 2 r1 ;;
+    if peek PLBrace r2 then
+      if peek PRBrace (tl r2) then Some (IStruct name ps fl [] wcs, tl (tl r2))
+      else '(fs, r4) <- parse_fields fuel fuel 0 (tl r2) ;; Some (IStruct name ps fl fs wcs, r4)
+    else None
+  else None.
+
+Definition parse_trait (fuel : nat) (at_ : list kw) (name : N) (r : list tok) : option (aitem * list tok) :=
+  let fl := tflags_of at_ in
+  if kws_eqb (tflags_kws fl) at_ then
+    '(ps, r1) <- parse_params fuel 1 1 r ;;
+    '(wcs, r2) <- parse_where fuel 2 r1 ;;
+    'r3 <- expect_braces r2 ;; Some (ITrait name ps fl wcs, r3)
+  else None.
+
+Definition parse_impl (fuel : nat) (at_ : list kw) (r : list tok) : option (aitem * list tok) :=
+  let up := has_kw Kupstream at_ in
+  if kws_eqb (kws_of [(up, Kupstream)]) at_ then
+    '(ps, r1) <- parse_params fuel 1 0 r ;;
+    let positive := negb (peek PBang r1) in
+    let r2 := if positive then r1 else tl r1 in
+    match r2 with
+    | ID tr :: r3 =>
+        '(args, r4) <- parse_args fuel r3 ;;
+        if peek_kw Kfor r4 then
+          '(self, r6) <- parse_ty fuel (tl r4) ;;
+          '(wcs, r7) <- parse_where fuel 2 r6 ;;
+          'r8 <- expect_braces r7 ;; Some (IImpl ps up positive tr args self wcs, r8)
+        else None
+    | _ => None
+    end
+  else None.
+
 Definition parse_item (fuel : nat) (ts : list tok) : option (aitem * list tok) :=
-  let '(at_, r0) := parse_attrs ts in
-  match r0 with
-  | KW Kstruct :: ID name :: r =>
-      let fl := {| sf_upstream := has_kw Kupstream at_; sf_fundamental := has_kw Kfundamental at_;
-                   sf_phantom_data := has_kw Kphantom_data at_ |} in
-      if kws_eqb (sflags_kws fl) at_ then
-        '(ps, r1) <- parse_params fuel 1 0 r ;;
-        '(wcs, r2) <- parse_where fuel 2 r1 ;;
-        match r2 with
-        | P PLBrace :: P PRBrace :: r3 => Some (IStruct name ps fl [] wcs, r3)
-        | P PLBrace :: r3 => '(fs, r4) <- parse_fields fuel fuel 0 r3 ;; Some (IStruct name ps fl fs wcs, r4)
-        | _ => None
-        end
-      else None
-  | KW Ktrait :: ID name :: r =>
-      let fl := {| tf_auto := has_kw Kauto at_; tf_marker := has_kw Kmarker at_; tf_upstream := has_kw Kupstream at_;
-                   tf_fundamental := has_kw Kfundamental at_; tf_non_enumerable := has_kw Knon_enumerable at_;
-                   tf_coinductive := has_kw Kcoinductive at_; tf_object_safe := has_kw Kobject_safe at_ |} in
-      if kws_eqb (tflags_kws fl) at_ then
-        '(ps, r1) <- parse_params fuel 1 1 r ;;
-        '(wcs, r2) <- parse_where fuel 2 r1 ;;
-        match r2 with
-        | P PLBrace :: P PRBrace :: r3 => Some (ITrait name ps fl wcs, r3)
-        | _ => None
-        end
-      else None
-  | KW Kimpl :: r =>
-      let up := has_kw Kupstream at_ in
-      if kws_eqb (kws_of [(up, Kupstream)]) at_ then
-        '(ps, r1) <- parse_params fuel 1 0 r ;;
-        let '(positive, r2) := match r1 with P PBang :: r2 => (false, r2) | _ => (true, r1) end in
-        match r2 with
-        | ID tr :: r3 =>
-            '(args, r4) <- parse_args fuel r3 ;;
-            match r4 with
-            | KW Kfor :: r5 =>
-                '(self, r6) <- parse_ty fuel r5 ;;
-                '(wcs, r7) <- parse_where fuel 2 r6 ;;
-                match r7 with
-                | P PLBrace :: P PRBrace :: r8 => Some (IImpl ps up positive tr args self wcs, r8)
-                | _ => None
-                end
-            | _ => None
-            end
-        | _ => None
-        end
-      else None
+  match snd (parse_attrs ts) with
+  | KW Kstruct :: ID name :: r => parse_struct fuel (fst (parse_attrs ts)) name r
+  | KW Ktrait :: ID name :: r => parse_trait fuel (fst (parse_attrs ts)) name r
+  | KW Kimpl :: r => parse_impl fuel (fst (parse_attrs ts)) r
   | _ => None
   end.
 
@@ -253,7 +240,8 @@ Fixpoint parse_items (n fuel : nat) (ts : list tok) : option ast :=
       end
   end.
 
-Definition parse_ast (ts : list tok) : option ast := parse_items (length ts) (length ts) ts.
+Definition parse_ast_fuel (fuel : nat) (ts : list tok) : option ast := parse_items fuel fuel ts.
+Definition parse_ast (ts : list tok) : option ast := parse_ast_fuel (length ts) ts.
 
 (* ------------------------------------------------------------------------------------- *)
 (** ** Name resolution: surface program -> lowered program
@@ -279,11 +267,12 @@ Fixpoint find_header (n : N) (hs : list header) : option header :=
   | h :: r => if N.eqb n h.(h_name) then Some h else find_header n r
   end.
 
-Fixpoint omap {A B} (f : A -> option B) (l : list A) : option (list B) :=
-  match l with
-  | [] => Some []
-  | x :: r => 'y <- f x ;; 'ys <- omap f r ;; Some (y :: ys)
-  end.
+Definition omap {A B} (f : A -> option B) : list A -> option (list B) :=
+  fix go l :=
+    match l with
+    | [] => Some []
+    | x :: r => 'y <- f x ;; 'ys <- go r ;; Some (y :: ys)
+    end.
 
 Definition garg_kind {V L R} (a : garg V L R) : kind := match a with GTy _ => KTy | GLt _ => KLt end.
 Fixpoint kinds_eqb (a b : list kind) : bool :=
@@ -381,4 +370,5 @@ Definition resolve (a : ast) : option program :=
   omap (r_item (headers true 0 a) (headers false 0 a)) a.
 
 (** parse + lower *)
-Definition parse (ts : list tok) : option program := 'a <- parse_ast ts ;; resolve a.
+Definition parse_fuel (fuel : nat) (ts : list tok) : option program := 'a <- parse_ast_fuel fuel ts ;; resolve a.
+Definition parse (ts : list tok) : option program := parse_fuel (length ts) ts.
